@@ -7,7 +7,7 @@ TRUSTED_BASE = [
     "Rust harness /verif/harness (drives the real code, dumps its state), python orchestrator ./check",
     "HashMap/DashMap as finite maps, VecDeque as a list, monotone Instant, fastrand as an arbitrary choice < len",
     "source translators checklib/static_scopes.py (lock / RefCell nesting -> Generated/*.lean, C16s / C17s) and checklib/static_sites.py (lock-site inventory): lexical scanners, trusted",
-    "source translator checklib/rust2lean.py (pure helper code of memory_estimator.rs, utils.rs, cache_entry.rs, stats.rs, eviction_policy.rs and the victim scans + insert / is_already_key_inserted / handle_entry_limit_eviction of async_global_cache.rs -> Generated/Pure*.lean, theorems T01..T14): a parser + emitter for the Rust subset these files use, trusted; the meaning of the library calls (usize subtraction, VecDeque / HashMap / iterator methods, atomics, f64 as an abstract structure) is the hand-written Cachelito/RustLite.lean, trusted; Rust's trait resolution (which MemoryEstimator impl a shape uses) is transcribed in Cachelito/Source/Mem.lean",
+    "source translator checklib/rust2lean.py (pure helper code of memory_estimator.rs, utils.rs, cache_entry.rs, stats.rs, eviction_policy.rs and the victim scans + insert / is_already_key_inserted / handle_entry_limit_eviction of async_global_cache.rs -> Generated/Pure*.lean, theorems T01..T16): a parser + emitter for the Rust subset these files use, trusted; the meaning of the library calls (usize subtraction, VecDeque / HashMap / iterator methods, atomics, f64 as an abstract structure) is the hand-written Cachelito/RustLite.lean, trusted; Rust's trait resolution (which MemoryEstimator impl a shape uses) is transcribed in Cachelito/Source/Mem.lean",
 ]
 
 HOOK_COMMITS = [
@@ -133,7 +133,7 @@ PROPS = {
         "design_ref": "DESIGN.md §7 C19", "assumptions": [],
     },
     "C04": {
-        "lean_modules": ["Cachelito.Props.C04", "Cachelito.Props.X01", "Cachelito.Props.T02", "Cachelito.Props.T07", "Cachelito.Props.T08", "Cachelito.Props.T11", "Cachelito.Props.T14"],
+        "lean_modules": ["Cachelito.Props.C04", "Cachelito.Props.X01", "Cachelito.Props.T02", "Cachelito.Props.T07", "Cachelito.Props.T08", "Cachelito.Props.T11", "Cachelito.Props.T14", "Cachelito.Props.T15", "Cachelito.Props.T16"],
         "streams": [core_stream(nontrivial=["eviction", "expiry"], enumerate_=SMALL_SCOPE)],
         "monitors": ["C04"],
         "rule": "generated episodes (config product flavour x policy x limit x max_memory x ttl x fw, key alphabet limit+2) run on the real engines; a step is non-trivial when it evicts or purges an entry; distinct = distinct (config, pre-state, operation)",
@@ -143,7 +143,7 @@ PROPS = {
         "assumptions": ["limit >= 1", "sequential use (concurrency is C18)"],
     },
     "C05": {
-        "lean_modules": ["Cachelito.Props.C05", "Cachelito.Props.C05a", "Cachelito.Props.T01", "Cachelito.Props.T14"],
+        "lean_modules": ["Cachelito.Props.C05", "Cachelito.Props.C05a", "Cachelito.Props.T01", "Cachelito.Props.T14", "Cachelito.Props.T15", "Cachelito.Props.T16"],
         "streams": [core_stream(filters=[[], ["shape=crowd"]], quick=1600, thorough=30000, nontrivial=["memory-store"], what="L1 restricted to nothing: all flavours/policies, memory-aware stores with sizes around max_memory; half of the episodes in the 'crowd' shape (a bound that holds five to eight small residents, large newcomers that displace several of them in one store)"),
                     lines_stream("mem_diff", "mem", ["{seed}", "{n}"], 60, 600,
                                  "estimator: random values of 85 Rust types (String/Vec with chosen capacities, nested Option/Result/tuple/Box/Arc/Rc, CacheEntry) through the REAL estimate_memory() vs MemEst.estimate; independent footprint walk", r"\|"),
@@ -167,7 +167,7 @@ PROPS = {
         "assumptions": ["monotone clock"],
     },
     "C07": {
-        "lean_modules": ["Cachelito.Props.C07", "Cachelito.Props.T02", "Cachelito.Props.T07", "Cachelito.Props.T08", "Cachelito.Props.T09", "Cachelito.Props.T10", "Cachelito.Props.T11", "Cachelito.Props.T12", "Cachelito.Props.T14"],
+        "lean_modules": ["Cachelito.Props.C07", "Cachelito.Props.T02", "Cachelito.Props.T07", "Cachelito.Props.T08", "Cachelito.Props.T09", "Cachelito.Props.T10", "Cachelito.Props.T11", "Cachelito.Props.T12", "Cachelito.Props.T14", "Cachelito.Props.T15", "Cachelito.Props.T16"],
         "streams": [core_stream(filters=[["policy=fifo"], ["policy=lru"]], nontrivial=["eviction"])],
         "monitors": ["C07"],
         "rule": "FIFO and LRU episodes on all three engines under entry limits 1..4, memory limits and both; non-trivial = a store that evicted",
@@ -177,7 +177,7 @@ PROPS = {
         "assumptions": [],
     },
     "C08": {
-        "lean_modules": ["Cachelito.Props.C08", "Cachelito.Props.T02", "Cachelito.Props.T03", "Cachelito.Props.T06", "Cachelito.Props.T07", "Cachelito.Props.T08", "Cachelito.Props.T09", "Cachelito.Props.T10", "Cachelito.Props.T11", "Cachelito.Props.T12", "Cachelito.Props.T14"],
+        "lean_modules": ["Cachelito.Props.C08", "Cachelito.Props.T02", "Cachelito.Props.T03", "Cachelito.Props.T06", "Cachelito.Props.T07", "Cachelito.Props.T08", "Cachelito.Props.T09", "Cachelito.Props.T10", "Cachelito.Props.T11", "Cachelito.Props.T12", "Cachelito.Props.T14", "Cachelito.Props.T15", "Cachelito.Props.T16"],
         "streams": [core_stream(filters=[["policy=lfu"], ["policy=arc"], ["policy=tlru"], ["policy=lfu", "shape=crowd"],
                                             ["policy=arc", "shape=crowd"], ["policy=tlru", "shape=crowd"],
                                             ["policy=arc", "shape=crowd", "flavour=async"], ["policy=tlru", "shape=crowd", "flavour=async"]],
@@ -265,7 +265,7 @@ PROPS = {
         "design_ref": "DESIGN.md §7 C20", "assumptions": ["the async runtime polls the future only through its public poll interface"],
     },
     "C18": {
-        "lean_modules": ["Cachelito.Props.C18", "Cachelito.Props.C18f", "Cachelito.Props.T07", "Cachelito.Props.T08"],
+        "lean_modules": ["Cachelito.Props.C18", "Cachelito.Props.C18f", "Cachelito.Props.T07", "Cachelito.Props.T08", "Cachelito.Props.T16"],
         "streams": [sched_stream(nontrivial=["nested-acquisition", "concurrent-call"]), hammer_stream(), static_stream()],
         "monitors": ["C18"],
         "rule": "scheduled runs of 2-3 real threads (calls overflowing a hot cache, group and conditional invalidations) followed by quiescent dumps and a 5-call sequential probe; non-trivial = a run with nested acquisitions or concurrent calls; distinct by (schedule, event trace)",
@@ -286,7 +286,7 @@ PROPS = {
         "assumptions": ["distinct cache names"],
     },
     "C16": {
-        "lean_modules": ["Cachelito.Props.C16", "Cachelito.Props.C05a", "Cachelito.Props.C16s", "Cachelito.Props.T01", "Cachelito.Props.T11", "Cachelito.Props.T14"],
+        "lean_modules": ["Cachelito.Props.C16", "Cachelito.Props.C05a", "Cachelito.Props.C16s", "Cachelito.Props.T01", "Cachelito.Props.T11", "Cachelito.Props.T14", "Cachelito.Props.T15", "Cachelito.Props.T16"],
         "streams": [core_stream(nontrivial=["eviction", "expiry", "oversize"], quick=1200, thorough=24000,
                                 what="L1 over the full product flavour x policy x limit x ttl x max_memory x fw; every operation under catch_unwind, debug assertions and overflow checks on"),
                     macro_stream(nontrivial=["call"], quick=600, what="L2: every operation on the real generated functions (calls on all flavours incl. thread scope under every policy, invalidations, statistics) runs under catch_unwind; a panic is a C16 violation"),
